@@ -111,6 +111,8 @@ Section Proofs.
   Variable tree : Type.
   Variable find : tree -> filt -> list (path * bool).
   Variable seen : tree -> filt -> list path.
+  (* find_check_cache with (true) or without (false) the repair F1; everything below holds for both *)
+  Variable fxc : bool.
 
   Notation entry := (entry tree find).
   Notation step_call := (step_call tree find seen).
@@ -264,10 +266,12 @@ Section Proofs.
               map fst (sv_cache s) = new_keys [] (cf_calls (w_conf w)).
 
   Theorem noskip_eq_fresh : forall (w : world) sv r,
-    coherent w sv -> lazy true w sv = Ran r -> req_full r (fresh true w).
+    coherent w sv -> lazy true fxc w sv = Ran r -> req_full r (fresh true w).
   Proof.
     intros w sv r Hcoh H. unfold Regen.lazy in H. destruct sv as [s|].
     2:{ inversion H. apply req_full_refl. }
+    destruct (fxc && cache_newer tree w s).
+    { inversion H. apply req_full_refl. }
     destruct (inputs_newer tree w s) eqn:En.
     { inversion H. apply req_full_refl. }
     destruct (replay_changed (w_tree w) (sv_cache s)) eqn:Er; [|discriminate].
@@ -323,10 +327,11 @@ Section Proofs.
     save (fresh true w0) = Some s ->
     (inputs_newer tree w s = false -> w_conf w = w_conf w0) ->
     forallb c_cached (cf_calls (w_conf w)) = true ->
-    lazy true w (Some s) = Skip tl ->
+    lazy true fxc w (Some s) = Skip tl ->
     req (fresh true w) (fresh true w0).
   Proof.
     intros w0 w s tl Hsave Hconf Hall H. unfold Regen.lazy in H.
+    destruct (fxc && cache_newer tree w s); [discriminate|].
     destruct (inputs_newer tree w s) eqn:En; [discriminate|].
     destruct (replay_changed (w_tree w) (sv_cache s)) eqn:Er; [discriminate|].
     specialize (Hconf eq_refl).
@@ -443,6 +448,21 @@ Section Proofs.
   Qed.
 
   Definition written (o : outcome) : list path := match o with Skip tl => tl | Ran r => r_outputs r end.
+  Definition stamped (o : outcome) : list path := written o ++ cache_written o.
+
+  (* the mtimes after the step: now for everything written or touched, unchanged otherwise *)
+  Lemma lookup_after_step (w : world) o prim now p :
+    lookup p (w_mt (after_step tree w o prim now)) =
+    if (N.eqb prim stamp && N.eqb p stamp) || memN p (stamped o) then Some now else lookup p (w_mt w).
+  Proof.
+    unfold Regen.after_step. cbn [w_mt with_mt]. fold (written o). fold (stamped o).
+    destruct (N.eqb prim stamp) eqn:E; cbn.
+    - rewrite lookup_set_mt, lookup_set_all. destruct (N.eqb p stamp); reflexivity.
+    - apply lookup_set_all.
+  Qed.
+
+  Lemma memN_app x a b : memN x (a ++ b) = memN x a || memN x b.
+  Proof. unfold memN. apply existsb_app. Qed.
 
   Theorem converges : forall fx75 (w : world) o r now,
     (forall p t, lookup p (w_mt w) = Some t -> t < now) ->
@@ -451,25 +471,17 @@ Section Proofs.
     regen_due tree fx75 r (after_step tree w o (primary r) now) = false.
   Proof.
     intros fx75 w o r now Hclock Hdeps Hprim.
-    unfold Regen.regen_due, Regen.ood, Regen.after_step. cbn [w_mt with_mt].
-    fold (written o).
-    set (m := set_all (w_mt w) (written o) now).
-    assert (Hl : forall p, lookup p (if N.eqb (primary r) stamp then set_mt m stamp now else m) =
-                           if (N.eqb (primary r) stamp && N.eqb p stamp) || memN p (written o)
-                           then Some now else lookup p (w_mt w)).
-    { intros p. destruct (N.eqb (primary r) stamp) eqn:E; cbn.
-      - rewrite lookup_set_mt. unfold m. rewrite lookup_set_all.
-        destruct (N.eqb p stamp); cbn; [reflexivity|]. reflexivity.
-      - unfold m. apply lookup_set_all. }
+    unfold Regen.regen_due, Regen.ood.
+    pose proof (lookup_after_step w o (primary r) now) as Hl.
     rewrite Hl.
-    assert (Hp : (N.eqb (primary r) stamp && N.eqb (primary r) stamp) || memN (primary r) (written o) = true).
+    assert (Hp : (N.eqb (primary r) stamp && N.eqb (primary r) stamp) || memN (primary r) (stamped o) = true).
     { destruct Hprim as [H|H].
       - rewrite H. reflexivity.
-      - apply memN_In in H. rewrite H. apply orb_true_r. }
+      - apply memN_In in H. unfold stamped. rewrite memN_app, H. cbn. apply orb_true_r. }
     rewrite Hp.
     match goal with |- existsb ?f ?l = false => destruct (existsb f l) eqn:Ex end; [|reflexivity]. exfalso.
     apply existsb_exists in Ex. destruct Ex as [d [Hd Hx]]. rewrite Hl in Hx.
-    destruct ((N.eqb (primary r) stamp && N.eqb d stamp) || memN d (written o)).
+    destruct ((N.eqb (primary r) stamp && N.eqb d stamp) || memN d (stamped o)).
     - apply N.ltb_lt in Hx. lia.
     - specialize (Hdeps d Hd). unfold Regen.exists_b in Hdeps.
       destruct (lookup d (w_mt w)) as [td|] eqn:El; [|discriminate].
@@ -477,7 +489,7 @@ Section Proofs.
   Qed.
 
   Corollary converges_ran : forall fx75 (w : world) sv r now,
-    lazy true w sv = Ran r ->
+    lazy true fxc w sv = Ran r ->
     (forall p t, lookup p (w_mt w) = Some t -> t < now) ->
     (forall d, In d (step_deps fx75 r) -> exists_b tree w d = true) ->
     regen_due tree fx75 r (after_step tree w (Ran r) (primary r) now) = false.
@@ -487,11 +499,36 @@ Section Proofs.
     cbn. unfold Regen.lazy in Hl.
     assert (Ho : forall c d, r_outputs (run true w c d) = bf :: cf_outs (w_conf w)) by reflexivity.
     destruct sv as [s|].
-    - destruct (inputs_newer tree w s).
+    - destruct (fxc && cache_newer tree w s); [inversion Hl; rewrite Ho; now left|].
+      destruct (inputs_newer tree w s).
       + inversion Hl. rewrite Ho. now left.
       + destruct (replay_changed (w_tree w) (sv_cache s)); [|discriminate]. inversion Hl. rewrite Ho. now left.
     - inversion Hl. rewrite Ho. now left.
   Qed.
+
+  (* F1 cannot make the step run for ever: after a step (Ran: the build file is written after the cache; Skip: the
+     outputs are touched) at a clock value beyond every mtime the cache is not newer than the first output, so the
+     next find_check_cache trusts it.  The comparison is strict: equal timestamps (one clock value per step in the
+     model; coarse file-system timestamps in reality) count as not newer. *)
+  Theorem cache_trusted_after_step : forall (w : world) o prim now s,
+    (forall p t, lookup p (w_mt w) = Some t -> t < now) ->
+    In (first_output s) (written o) ->
+    cache_newer tree (after_step tree w o prim now) s = false.
+  Proof.
+    intros w o prim now s Hclock Hin. unfold Regen.cache_newer, Regen.mt.
+    rewrite !lookup_after_step.
+    assert (Hm : memN (first_output s) (stamped o) = true).
+    { unfold stamped. rewrite memN_app. apply memN_In in Hin. rewrite Hin. reflexivity. }
+    rewrite Hm, orb_true_r. apply N.ltb_ge.
+    destruct ((N.eqb prim stamp && N.eqb cachef stamp) || memN cachef (stamped o)); [lia|].
+    destruct (lookup cachef (w_mt w)) as [t|] eqn:El; [|lia].
+    specialize (Hclock _ _ El). lia.
+  Qed.
+
+  (* the new branch of find_check_cache gives exactly a fresh configure *)
+  Theorem newer_cache_reruns : forall (w : world) s,
+    cache_newer tree w s = true -> lazy true true w (Some s) = Ran (fresh true w).
+  Proof. intros w s H. unfold Regen.lazy. rewrite H. reflexivity. Qed.
 
   (* ------------------------------------------------------------------ histories *)
   (* the persistent state between makes: the world, .bfg_find_cache, and the result the build files on disk
@@ -501,7 +538,7 @@ Section Proofs.
   (* one make: the regeneration recipe runs iff its target is out of date *)
   Definition regen_step (s : state) (now : time) : state :=
     if regen_due tree true (s_emit s) (s_w s) then
-      match lazy true (s_w s) (s_sv s) with
+      match lazy true fxc (s_w s) (s_sv s) with
       | Ran r => {| s_w := after_step tree (s_w s) (Ran r) (primary r) now; s_sv := save r; s_emit := r |}
       | Skip tl => {| s_w := after_step tree (s_w s) (Skip tl) (primary (s_emit s)) now;
                       s_sv := s_sv s; s_emit := s_emit s |}
@@ -525,7 +562,7 @@ Section Proofs.
      w_conf w' = w_conf (s_w s)) /\
     (forall f, (forall d, In d (seen (w_tree (s_w s)) f) -> quiet_dep w' (primary (s_emit s)) d) ->
                find (w_tree w') f = find (w_tree (s_w s)) f /\ seen (w_tree w') f = seen (w_tree (s_w s)) f) /\
-    (forall tl, lazy true w' (s_sv s) = Skip tl -> r_dirs (fresh true w') = r_dirs (fresh true (s_w s))).
+    (forall tl, lazy true fxc w' (s_sv s) = Skip tl -> r_dirs (fresh true w') = r_dirs (fresh true (s_w s))).
 
   Inductive reach : state -> Prop :=
   | reach_init : forall w, all_cached w ->
@@ -572,7 +609,7 @@ Section Proofs.
     intros (Hreq & Hsv & Hall) (E2 & E1 & Hscripts & Hwalk & E4).
     unfold regen_step. cbn [s_w s_sv s_emit].
     destruct (regen_due tree true (s_emit s) w') eqn:Edue.
-    - destruct (lazy true w' (s_sv s)) as [tl|r] eqn:El.
+    - destruct (lazy true fxc w' (s_sv s)) as [tl|r] eqn:El.
       + (* Skip *)
         unfold good. cbn [s_w s_sv s_emit]. rewrite after_step_fresh. split; [|split; [exact Hsv|exact E2]].
         destruct (s_sv s) as [s0|] eqn:Es; [|cbn in El; discriminate].
@@ -608,7 +645,7 @@ End Proofs.
 Module Wit.
   (* the tree is a boolean: false = before the edit, true = after it *)
   Definition cf1 (outs : list path) : conf :=
-    {| cf_inputs := [2]; cf_outs := outs; cf_calls := [{| c_filt := 7; c_cached := true; c_dist := true |}]; cf_tok := 0 |}.
+    {| cf_inputs := [4]; cf_outs := outs; cf_calls := [{| c_filt := 7; c_cached := true; c_dist := true |}]; cf_tok := 0 |}.
   Definition mk (t : bool) (m : list (path * time)) (outs : list path) : world bool :=
     {| w_tree := t; w_mt := m; w_conf := cf1 outs |}.
 
@@ -616,7 +653,7 @@ Module Wit.
   Definition findA (t : bool) (f : filt) : list (path * bool) :=
     if t then [(10, true); (11, false); (12, true)] else [(10, true); (11, false)].
   Definition seenA (t : bool) (f : filt) : list path := [5].
-  Definition mtA : list (path * time) := [(0, 10); (2, 3); (5, 20)].
+  Definition mtA : list (path * time) := [(0, 10); (4, 3); (5, 20)].
   Definition svA : option saved := save (fresh bool findA seenA true (mk false mtA [])).
 
   Lemma cohA : coherent bool (mk true mtA []) svA.
@@ -626,43 +663,43 @@ Module Wit.
   Definition findB (t : bool) (f : filt) : list (path * bool) := [(10, true)].
   Definition seenB (t : bool) (f : filt) : list path := if t then [5; 6] else [5].
   Definition seenC (t : bool) (f : filt) : list path := if t then [5] else [5; 6].
-  Definition mtB : list (path * time) := [(0, 30); (2, 3); (5, 40); (6, 40)].
-  Definition mtC : list (path * time) := [(0, 30); (2, 3); (5, 40)].
+  Definition mtB : list (path * time) := [(0, 30); (4, 3); (5, 40); (6, 40)].
+  Definition mtC : list (path * time) := [(0, 30); (4, 3); (5, 40)].
 End Wit.
 
-Lemma noskip_eq_fresh_refuted :
+Lemma noskip_eq_fresh_refuted : forall fxc,
   exists (tree : Type) find seen (w : world tree) sv r,
-    coherent tree w sv /\ lazy tree find seen false w sv = Ran r /\
+    coherent tree w sv /\ lazy tree find seen false fxc w sv = Ran r /\
     ~ set_eq (r_dist r) (r_dist (fresh tree find seen false w)).
 Proof.
-  exists bool, Wit.findA, Wit.seenA, (Wit.mk true Wit.mtA []), Wit.svA.
-  eexists. split; [exact Wit.cohA|]. split; [vm_compute; reflexivity|].
+  intros fxc. exists bool, Wit.findA, Wit.seenA, (Wit.mk true Wit.mtA []), Wit.svA.
+  eexists. split; [exact Wit.cohA|]. split; [destruct fxc; vm_compute; reflexivity|].
   intros H. destruct (H 11) as [_ H2].
   assert (Hin : In 11 (r_dist (fresh bool Wit.findA Wit.seenA false (Wit.mk true Wit.mtA [])))) by (vm_compute; auto).
   specialize (H2 Hin). vm_compute in H2.
   repeat (destruct H2 as [H2|H2]; [discriminate|]). destruct H2.
 Qed.
 
-Lemma noskip_dist_order_refuted :
+Lemma noskip_dist_order_refuted : forall fxc,
   exists (tree : Type) find seen (w : world tree) sv r,
-    coherent tree w sv /\ lazy tree find seen true w sv = Ran r /\
+    coherent tree w sv /\ lazy tree find seen true fxc w sv = Ran r /\
     r_dist r <> r_dist (fresh tree find seen true w).
 Proof.
-  exists bool, Wit.findA, Wit.seenA, (Wit.mk true Wit.mtA []), Wit.svA.
-  eexists. split; [exact Wit.cohA|]. split; [vm_compute; reflexivity|]. vm_compute. discriminate.
+  intros fxc. exists bool, Wit.findA, Wit.seenA, (Wit.mk true Wit.mtA []), Wit.svA.
+  eexists. split; [exact Wit.cohA|]. split; [destruct fxc; vm_compute; reflexivity|]. vm_compute. discriminate.
 Qed.
 
-Lemma skip_dirs_refuted :
+Lemma skip_dirs_refuted : forall fxc,
   exists (tree : Type) find seen (w0 w : world tree) s tl,
     save (fresh tree find seen true w0) = Some s /\
     (inputs_newer tree w s = false -> w_conf w = w_conf w0) /\
     forallb c_cached (cf_calls (w_conf w)) = true /\
-    lazy tree find seen true w (Some s) = Skip tl /\
+    lazy tree find seen true fxc w (Some s) = Skip tl /\
     ~ set_eq (r_dirs (fresh tree find seen true w)) (r_dirs (fresh tree find seen true w0)).
 Proof.
-  exists bool, Wit.findB, Wit.seenB, (Wit.mk false Wit.mtB []), (Wit.mk true Wit.mtB []).
+  intros fxc. exists bool, Wit.findB, Wit.seenB, (Wit.mk false Wit.mtB []), (Wit.mk true Wit.mtB []).
   eexists. eexists. split; [vm_compute; reflexivity|]. split; [reflexivity|]. split; [reflexivity|].
-  split; [vm_compute; reflexivity|].
+  split; [destruct fxc; vm_compute; reflexivity|].
   intros H. destruct (H 6) as [H2 _].
   assert (Hin : In 6 (r_dirs (fresh bool Wit.findB Wit.seenB true (Wit.mk true Wit.mtB [])))) by (vm_compute; auto).
   specialize (H2 Hin). vm_compute in H2.
@@ -681,7 +718,7 @@ Lemma trigger_refuted :
     1 < N.of_nat (length (r_outputs r0)) /\
     regen_due tree false r0 w = false /\ regen_due tree true r0 w = true.
 Proof.
-  pose (m := [(0, 10); (1, 10); (3, 10); (2, 3); (5, 20)] : list (path * time)).
+  pose (m := [(0, 10); (1, 10); (3, 10); (4, 3); (5, 20)] : list (path * time)).
   exists bool, Wit.findA, Wit.seenA, (Wit.mk false m [3]), (Wit.mk true m [3]).
   eexists. split; [apply req_full_refl|]. split; [reflexivity|]. split; [reflexivity|]. split.
   - intros f H. exfalso. specialize (H 5 (or_introl eq_refl)).
@@ -690,16 +727,16 @@ Proof.
   - split; [vm_compute; discriminate|]. split; [vm_compute; reflexivity|]. split; vm_compute; reflexivity.
 Qed.
 
-Lemma converges_skip_missing_dir_refuted :
+Lemma converges_skip_missing_dir_refuted : forall fxc,
   exists (tree : Type) find seen (w0 w : world tree) s tl now,
     save (fresh tree find seen true w0) = Some s /\
-    lazy tree find seen true w (Some s) = Skip tl /\
+    lazy tree find seen true fxc w (Some s) = Skip tl /\
     (forall p t, lookup p (w_mt w) = Some t -> t < now) /\
     let r0 := fresh tree find seen true w0 in
     regen_due tree true r0 (after_step tree w (Skip tl) (primary r0) now) = true.
 Proof.
-  exists bool, Wit.findB, Wit.seenC, (Wit.mk false Wit.mtB []), (Wit.mk true Wit.mtC []).
-  eexists. eexists. exists 100. split; [vm_compute; reflexivity|]. split; [vm_compute; reflexivity|]. split.
+  intros fxc. exists bool, Wit.findB, Wit.seenC, (Wit.mk false Wit.mtB []), (Wit.mk true Wit.mtC []).
+  eexists. eexists. exists 100. split; [vm_compute; reflexivity|]. split; [destruct fxc; vm_compute; reflexivity|]. split.
   - intros p t H. cbn in H.
     repeat match type of H with
            | (if ?b then _ else _) = _ => destruct b
@@ -708,8 +745,27 @@ Proof.
 Qed.
 
 (* the hypotheses of the positive theorems are satisfiable on worlds where something happens *)
-Lemma noskip_nonvacuous :
+Lemma noskip_nonvacuous : forall fxc,
   exists r, coherent bool (Wit.mk true Wit.mtA []) Wit.svA /\
-            lazy bool Wit.findA Wit.seenA true (Wit.mk true Wit.mtA []) Wit.svA = Ran r /\
+            lazy bool Wit.findA Wit.seenA true fxc (Wit.mk true Wit.mtA []) Wit.svA = Ran r /\
             r_rets r = [[10; 12]] /\ In 11 (r_dist r).
-Proof. eexists. split; [exact Wit.cohA|]. split; [vm_compute; reflexivity|]. split; [reflexivity|]. cbn. auto. Qed.
+Proof.
+  intros fxc. eexists. split; [exact Wit.cohA|]. split; [destruct fxc; vm_compute; reflexivity|].
+  split; [reflexivity|]. cbn. auto.
+Qed.
+
+(* F1 decides: the same unchanged world is skipped when the cache is not newer than the build file and regenerated
+   (by the repaired code only) when it is - the state left behind by a run that saved the cache and died before
+   writing the build file; with equal timestamps the cache is trusted (strict comparison) *)
+Lemma newer_cache_nonvacuous :
+  let w0 := Wit.mk false Wit.mtA [] in
+  let sv := save (fresh bool Wit.findA Wit.seenA true w0) in
+  let newer := Wit.mk false ((2, 11) :: Wit.mtA) [] in
+  let equal := Wit.mk false ((2, 10) :: Wit.mtA) [] in
+  (exists tl, lazy bool Wit.findA Wit.seenA true true equal sv = Skip tl) /\
+  (exists tl, lazy bool Wit.findA Wit.seenA true false newer sv = Skip tl) /\
+  lazy bool Wit.findA Wit.seenA true true newer sv = Ran (fresh bool Wit.findA Wit.seenA true newer).
+Proof.
+  cbn zeta. split; [eexists; vm_compute; reflexivity|]. split; [eexists; vm_compute; reflexivity|].
+  vm_compute. reflexivity.
+Qed.
